@@ -75,6 +75,7 @@ RunRecord run_driver(const sim::Json& sc) {
   g_stub.clear();
   g_script = sc["script"].is_obj() ? sc["script"] : sim::Json::object();
   g_dual_mode = (int)g_script["dual_mode"].as_int(0);
+  g_cb_calls = 0;
 
   normalise_signal_statics();
 
